@@ -6,5 +6,6 @@ CONSTANTS
   HookBeforeQuitCheck = TRUE
   Locals = TRUE
   Triggers = TRUE
+  Decodes = TRUE
   QuitWhen = "any"
 CHECK_DEADLOCK FALSE
